@@ -5,6 +5,7 @@ import (
 	"fmt"
 	"io/fs"
 	"path"
+	"sort"
 	"strings"
 
 	"github.com/quay/claircore/pkg/tarfs"
@@ -108,7 +109,12 @@ func directChecks(ms []member, t *otree, sys *tarfs.FS, nerr error, rnd func(int
 	}
 
 	subs := map[string]oentry{}
-	for i := 0; i < 3 && len(dirs) > 0; i++ {
+	if len(dirs) <= 10 {
+		for _, d := range dirs {
+			subs[d.path] = d
+		}
+	}
+	for i := 0; i < 3 && len(dirs) > 10; i++ {
 		d := dirs[rnd(len(dirs))]
 		subs[d.path] = d
 	}
@@ -123,7 +129,13 @@ func directChecks(ms []member, t *otree, sys *tarfs.FS, nerr error, rnd func(int
 		}
 	}
 	subs["."] = oentry{".", t.root}
-	for _, d := range subs {
+	subKeys := make([]string, 0, len(subs))
+	for k := range subs {
+		subKeys = append(subKeys, k)
+	}
+	sort.Strings(subKeys)
+	for _, k := range subKeys {
+		d := subs[k]
 		for _, f := range compareSub(sys, t, d) {
 			if t.flags.throughLink && strings.Contains(f.detail, "Glob") {
 				f.kind = "glob"
